@@ -305,6 +305,83 @@ theorem half_pipeline_transparency (F : FloatOps) (src : Img8) (w h : Nat) (hw :
     · rw [h3, halfCell]
       exact C20.transparent_default _ _
 
+/-- `averageColor top [bot]`'s alpha is the mean of the two 8-bit alphas. -/
+theorem average_alpha (top bot : C16) (ht : (toRGB top).a < 256) (hb : (toRGB bot).a < 256) :
+    (averageColor top [bot]).a = ((toRGB bot).a + (toRGB top).a) / 2 := by
+  simp only [averageColor, List.cons_append, List.nil_append, List.map_cons, List.map_nil, List.sum_cons, List.sum_nil,
+    List.length_cons, List.length_nil, Nat.add_zero, u8]
+  omega
+
+/-- **Transparency through the whole pipeline, full blocks, every image**: the cell at column `x`, row `y` is a space
+    with default foreground whose background is the default colour exactly when the mean of the alpha bytes of the two
+    source pixels `(nnIndex x, nnIndex (2y))`, `(nnIndex x, nnIndex (2y+1))` is below 50 — in a last odd row the upper
+    pixel's alpha alone (F220) — and otherwise the mean colour `averageColor` computes for the two pixels. -/
+theorem full_pipeline_transparency (F : FloatOps) (src : Img8) (w h : Nat) (hw : 0 < src.w) (hh : 0 < src.h)
+    (hb : AlphaBytes src) (cs : List (Nat × Nat × BCell)) (hr : fullResize F src w h = .ok cs) :
+    ∃ pw ph, resizeDims F src.w src.h w h fullBlockGeom.1 fullBlockGeom.2 = .ok (pw, ph) ∧
+      ∀ e ∈ cs, e.1 < pw ∧ e.2.1 < ceilDiv ph 2 ∧ e.2.2.glyph = 0x20 ∧ e.2.2.fg = 0 ∧
+        let ta := (src.pix (nnIndex e.1 src.w pw) (nnIndex (2 * e.2.1) src.h ph)).a
+        let ba := if 2 * e.2.1 + 1 < ph then (src.pix (nnIndex e.1 src.w pw) (nnIndex (2 * e.2.1 + 1) src.h ph)).a else ta
+        ((ba + ta) / 2 < 50 → e.2.2.bg = 0) ∧
+        (¬ (ba + ta) / 2 < 50 → ∃ c : C8, e.2.2.bg = rgbColor c.r c.g c.b) := by
+  unfold fullResize at hr
+  cases hi : resizeImg F src w h fullBlockGeom.1 fullBlockGeom.2 with
+  | error e => rw [hi] at hr; cases hr
+  | ok img =>
+    rw [hi] at hr
+    simp only [bind, Except.bind, pure, Except.pure] at hr
+    cases hr
+    refine ⟨img.w, img.h, (resizeImg_cases genCfg F src w h _ _ img hi).1, ?_⟩
+    intro e he
+    obtain ⟨h1, h2, h3, _⟩ := blockCellsWith_mem _ fullCell img.view e he
+    rw [view_w] at h1
+    rw [view_h] at h2
+    obtain ⟨hrow, _⟩ := blockHeight_rows img.h e.2.1 h2
+    rw [blockHeight_eq] at h2
+    rw [full_block_bottom_shape] at h3
+    have hta := resized_alpha F src img w h _ _ hi hb hw hh e.1 (2 * e.2.1) h1 hrow
+    have htb : (src.pix (nnIndex e.1 src.w img.w) (nnIndex (2 * e.2.1) src.h img.h)).a < 256 :=
+      hb _ _ (nnIndex_lt e.1 src.w img.w h1 hw) (nnIndex_lt (2 * e.2.1) src.h img.h hrow hh)
+    refine ⟨h1, h2, by rw [h3]; rfl, by rw [h3]; rfl, ?_⟩
+    intro ta ba
+    -- the lower pixel the cell reads, and its alpha
+    have key : ∃ low : C16, lowerPx .topIfMissing img.view e.1 (2 * e.2.1) = low ∧ (toRGB low).a = ba ∧ ba < 256 := by
+      by_cases hbot : 2 * e.2.1 + 1 < img.h
+      · have hl : lowerPx .topIfMissing img.view e.1 (2 * e.2.1) = img.view.at e.1 (2 * e.2.1 + 1) := by
+          have : 2 * e.2.1 + 1 < img.view.h := hbot
+          simp [lowerPx, this]
+        refine ⟨_, hl, ?_, ?_⟩
+        · show _ = if 2 * e.2.1 + 1 < img.h then _ else _
+          rw [if_pos hbot]
+          exact resized_alpha F src img w h _ _ hi hb hw hh e.1 (2 * e.2.1 + 1) h1 hbot
+        · show (if 2 * e.2.1 + 1 < img.h then _ else _) < 256
+          rw [if_pos hbot]
+          exact hb _ _ (nnIndex_lt e.1 src.w img.w h1 hw) (nnIndex_lt (2 * e.2.1 + 1) src.h img.h hbot hh)
+      · have hl : lowerPx .topIfMissing img.view e.1 (2 * e.2.1) = img.view.at e.1 (2 * e.2.1) := by
+          have : ¬ 2 * e.2.1 + 1 < img.view.h := hbot
+          simp [lowerPx, this]
+        refine ⟨_, hl, ?_, ?_⟩
+        · show _ = if 2 * e.2.1 + 1 < img.h then _ else _
+          rw [if_neg hbot]; exact hta
+        · show (if 2 * e.2.1 + 1 < img.h then _ else _) < 256
+          rw [if_neg hbot]; exact htb
+    obtain ⟨low, hlow, hla, hlb⟩ := key
+    rw [hlow] at h3
+    have hmean := average_alpha (img.view.at e.1 (2 * e.2.1)) low (by rw [hta]; exact htb) (by rw [hla]; exact hlb)
+    rw [hla, hta] at hmean
+    have hfc := C20.transparent_default_full (img.view.at e.1 (2 * e.2.1)) low
+    rw [hmean] at hfc
+    constructor
+    · intro hlt
+      rw [h3]
+      show fullColor _ _ = 0
+      rw [hfc, if_pos hlt]
+    · intro hge
+      refine ⟨averageColor (img.view.at e.1 (2 * e.2.1)) [low], ?_⟩
+      rw [h3]
+      show fullColor _ _ = _
+      rw [hfc, if_neg hge]
+
 /-! ## The `Copy` shortcut of `Scale` is unreachable from `resizeImage` -/
 
 /-- `Scale` delegates to `Copy` when source and destination have the same size (not modelled).  `resizeImage` scales
